@@ -69,6 +69,16 @@ def validate(ck, trace, meta, tag="trace"):
     out = open(f"{ck.work}/{tag}.out").read()
     rejected = sorted({int(m) for m in re.findall(r'<<"REJECTED", (\d+)>>', out)})
     bad_runs = set()
+    # operations after which the live store did not show the state / result class Store.tla gives:
+    # conformance of the running store is C19/C20's subject - here it is logged (it explains the
+    # rejected crash images that follow: those are judged against the model's state)
+    for n in sorted({int(m) for m in re.findall(r'<<"OPDIFF", (\d+)>>', out)})[:20]:
+        ev = json.loads(lines[n - 1])
+        ck.cov["drift"] += 1
+        ck.cov["live_store_differs_from_model_after_ops"] = ck.cov.get("live_store_differs_from_model_after_ops", 0) + 1
+        vf.log(f"DRIFT property=C22 after operation {ev.get('i')} ({ev.get('op')} h={ev.get('h')} res={ev.get('res')}) the "
+               f"live store does not show the state Store.tla gives: stored={ev['st']['stored']} "
+               f"sampled={ev['st']['sampled']} pruned={ev['st']['pruned']}")
 
     def run_of(n):  # n: 1-based line number
         k = max(i for i in starts if i < n)
@@ -154,7 +164,7 @@ def run(ck):
             ck.cov["samples"] += p.get("samples", [])[:3]
         for k in ("images_reopened", "journal_entries", "state_changing_ops", "ops", "full_syncs", "eventual_syncs",
                   "points_with_all_subsets", "points_with_sampled_subsets", "big_inserts_committed",
-                  "journal_entries_in_big_inserts", "panics"):
+                  "journal_entries_in_big_inserts", "failed_ops", "retried_failed_ops", "panics"):
             extra[k] = extra.get(k, 0) + s["extra"].get(k, 0)
         if s["extra"].get("panics"):
             ck.violation({"kind": "panic"}, f"a store operation panicked: {s['extra'].get('last_panic')}",
@@ -167,6 +177,8 @@ def run(ck):
         if extra["state_changing_ops"] < chunks * runs * 2 or ck.cov["distinct_nontrivial"] < 50:
             raise vf.ToolError("vacuity: the recorded histories contain too few crash points inside "
                                "state-changing operations")
+        if extra["failed_ops"] < chunks * runs or extra["retried_failed_ops"] < max(1, chunks * runs // 4):
+            raise vf.ToolError("vacuity: too few failing operations / retries of failed operations in the histories")
         if extra["big_inserts_committed"] < bruns or extra["journal_entries_in_big_inserts"] < 100 * bruns:
             raise vf.ToolError("vacuity: no crash points inside inserts of more than 256 headers")
     ck.level = "model_checking"
